@@ -38,6 +38,7 @@ class Knobs:
         self.p_ondone = 0.4
         self.p_always = 0.12
         self.p_raise = 0.12
+        self.p_raise_burst = 0.0    # a raising action list raises a SECOND event (events queued behind one another)
         self.p_root_target = 0.04
         self.p_history_target = 0.15
         self.p_relative_target = 0.2
@@ -60,7 +61,8 @@ class Knobs:
 PROFILES = {
     "core": {},
     "history": {"p_history": 0.8, "p_history_target": 0.5, "p_parallel": 0.4, "p_always": 0.05, "n_events": 10},
-    "done": {"p_final": 0.45, "p_ondone": 0.8, "p_parallel": 0.45, "p_history": 0.1, "p_leaf": 0.35},
+    "done": {"p_final": 0.45, "p_ondone": 0.8, "p_parallel": 0.45, "p_history": 0.1, "p_leaf": 0.35,
+             "p_raise": 0.3, "p_raise_burst": 0.6},
     "select": {"p_on": 0.7, "p_guard": 0.6, "p_parallel": 0.45, "p_composite_guard": 0.3, "p_always": 0.05,
                "p_wildcard": 0.15, "p_forbidden": 0.1},
     "loops": {"p_always": 0.45, "p_raise": 0.4, "p_ondone": 0.6, "p_final": 0.3, "max_iterations": 6, "p_guard": 0.45},
@@ -289,6 +291,9 @@ def decorate(rng: random.Random, kn: Knobs, cfg, paths):
                     t["actions"] = [f"tr:{tag}:{ev}:{len(cands)}"] + (extra_actions() if any_extra else [])
                     if rng.random() < kn.p_raise:
                         t["actions"].append(raise_action())
+                        if kn.p_raise_burst > 0 and rng.random() < kn.p_raise_burst:
+                            t["actions"].append(raise_action())
+                            feats.add("raise-burst")
                     if rng.random() < kn.p_guard:
                         t[rng.choice(["guard", "guard", "cond"])] = (ctx_guard() if kn.p_ctx > 0 and rng.random() < 0.4
                                                                      else gen_guard(rng, kn, real))
